@@ -126,7 +126,7 @@ pub fn install_panic_hook() {
             .map(|s| s.to_string())
             .or_else(|| info.payload().downcast_ref::<String>().cloned())
             .unwrap_or_else(|| "<non-string panic>".into());
-        if msg.contains("KMC-EXPECTED-UNWIND") || msg.contains("polled after result is already returned") {
+        if msg.contains("KMC-EXPECTED-UNWIND") || msg.contains("send data option is None") || msg.contains("polled after result is already returned") {
             // expected / documented panics the interpreter catches on purpose
             return;
         }
@@ -182,6 +182,7 @@ fn shape_hash(h: &History) -> u64 {
 
 fn run_typed<T: Payload>(p: &Program, cfg: &RunCfg, m: Option<Arc<Explored>>) -> Result<(), String> {
     let mut b = loom::model::Builder::new();
+    // (a program that makes the lock's retry loop run for long needs room)
     b.max_branches = cfg.max_branches;
     b.preemption_bound = p.env.preempt.map(|x| x as usize);
     b.max_threads = 5;
